@@ -576,7 +576,7 @@ def _summarise_nonempty(ctx, fr, path, src, body, lo, hi, peel):
                 if not mentions(cf, unresolved_consts()):
                     bfacts.append(norm(z3.Implies(cond_of(p), f)))
         if all(z3.eq(simp(v.t), simp(g.val.t)) for _, _, v in posts):
-            L.mk = lambda a, b, entry=entry: entry
+            L.mk = lambda a, b, q=None, entry=entry: entry
             L.closed_inner = None
             return True
         if g.kind in ("seq", "str"):
@@ -617,7 +617,7 @@ def _summarise_nonempty(ctx, fr, path, src, body, lo, hi, peel):
                         rann = v.ann
                         break
 
-            def mk(a, b, fn=fn, entry=entry, kind=g.kind, deep=deep, rann=rann):
+            def mk(a, b, q=None, fn=fn, entry=entry, kind=g.kind, deep=deep, rann=rann):
                 if kind == "seq":
                     return Val(V.VList(simp(z3.Concat(ctx.as_seq(path, entry), fn(a, b)))), rann, own=entry.own, deep=deep, src=entry.src)
                 return Val(V.VStr(simp(z3.Concat(ctx.as_str(path, entry), fn(a, b)))), ("str",))
@@ -648,8 +648,8 @@ def _summarise_nonempty(ctx, fr, path, src, body, lo, hi, peel):
             ctx.folds.setdefault(nm, FoldInfo(nm, "set", fn, K0, piece, bfacts))
             entry_arr = ctx.set_arr(path, entry)
 
-            def mk(a, b, fn=fn, entry=entry, entry_arr=entry_arr):
-                nv = ctx.mk_set(path, z3.SetUnion(entry_arr, fn(a, b)), entry.ann, own=entry.own,
+            def mk(a, b, q=None, fn=fn, entry=entry, entry_arr=entry_arr):
+                nv = ctx.mk_set(q if q is not None else path, z3.SetUnion(entry_arr, fn(a, b)), entry.ann, own=entry.own,
                                 frozen=False)
                 nv.src = entry.src
                 nv.deep = entry.deep
@@ -677,7 +677,7 @@ def _summarise_nonempty(ctx, fr, path, src, body, lo, hi, peel):
             fn = ctx.func(nm, smt.IntS, smt.IntS, smt.IntS)
             ctx.folds.setdefault(nm, FoldInfo(nm, "int", fn, K0, piece, bfacts))
             e_int = ctx.as_int(path, entry)
-            L.mk = lambda a, b, fn=fn, e_int=e_int: Val(V.VInt(simp(e_int + fn(a, b))), ("int",))
+            L.mk = lambda a, b, q=None, fn=fn, e_int=e_int: Val(V.VInt(simp(e_int + fn(a, b))), ("int",))
             closed_subs.append((g.inner, simp(e_int + fn(lo, K))))
             return True
         # 'any': last-write pattern  acc' = f(k) if cond(k) else acc
@@ -704,7 +704,7 @@ def _summarise_nonempty(ctx, fr, path, src, body, lo, hi, peel):
         fn = ctx.func(nm, smt.IntS, smt.IntS, smt.IntS)     # greatest index in [a,b) with wcond, or a-1
         ctx.folds.setdefault(nm, FoldInfo(nm, "last", fn, K0, wcond, bfacts))
 
-        def mk(a, b, fn=fn, wval=wval, entry=entry, ann=ann):
+        def mk(a, b, q=None, fn=fn, wval=wval, entry=entry, ann=ann):
             idx = fn(a, b)
             t = simp(z3.If(idx >= a, z3.substitute(wval, (K0, idx)), entry.t))
             ea = ann if (ann is not None and entry.ann == ann) else None
@@ -743,7 +743,7 @@ def _summarise_nonempty(ctx, fr, path, src, body, lo, hi, peel):
     def apply_state(q, a, b):
         """Set all carried locations of path q to their value after iterating [a, b)."""
         for L in locs:
-            v = L.mk(a, b)
+            v = L.mk(a, b, q)
             loc = L.key
             if loc[0] == "env":
                 q.env[loc[1]] = v
